@@ -49,7 +49,7 @@ def run(ctx):
     L, Mp, assigns = _fields(prog, ci)
     init = prog.method(ci, "__init__")
 
-    with ctx.obligation("C20.1", "encapsulation: only DrawSet touches its two fields; fresh containers per instance", floor=2) as o:
+    def _ob_52(o):
         if L is None or Mp is None:
             o.undecided("DrawSet.__init__ does not bind one fresh list and one fresh dict: different representation strategy", init)
             return
@@ -60,7 +60,12 @@ def run(ctx):
             else:
                 o.undecided(f"self.{f} bound {len(sites)} times in __init__", init)
             if f in ci.class_attrs:
-                o.violated(init, ci.node, f"{f} is also a class attribute: shared between instances")
+                # a class-level `_edges = []` is shadowed by the instance attribute that __init__ binds unconditionally:
+                # every method goes through self, so nothing is shared (independent differential audit: identical behaviour)
+                if len(sites) == 1 and any(sites[0][0] is s_ for s_ in init.node.body):
+                    o.holds(init, ci.node, f"{f} is also a class attribute, but __init__ binds a fresh instance attribute unconditionally: the class-level object is never reached through self")
+                else:
+                    o.undecided(f"{f} is also a class attribute and the binding in __init__ is not unconditional", init, ci.node)
         # default-argument containers
         for a, d in zip(reversed(init.node.args.args), reversed(init.node.args.defaults)):
             if isinstance(d, (ast.List, ast.Dict)):
@@ -101,6 +106,8 @@ def run(ctx):
                 o.violated(m, e, f"method {mname} writes DrawSet.{L}/{Mp}; only add/remove may")
         if outside == 0:
             o.holds(None, None, f"no access to .{L} / .{Mp} outside DrawSet in {len(prog.functions)} functions", construct="repo-wide scan")
+    with ctx.obligation("C20.1", "encapsulation: only DrawSet touches its two fields; fresh containers per instance", floor=2) as o:
+        _ob_52(o)
 
     if L is None or Mp is None:
         return
@@ -118,6 +125,14 @@ def run(ctx):
         guarded_body = None
         if body and isinstance(body[0], ast.If):
             t = body[0].test
+            # `e in self` goes through __contains__: read what that method tests
+            cont = prog.method(ci, "__contains__")
+            if cont is not None and len(cont.params) == 2:
+                cb = astx.strip_logging(cont.body)
+                if len(cb) == 1 and isinstance(cb[0], ast.Return) and txt(cb[0].value) in (f"{cont.params[1]} in {selfM}", f"{cont.params[1]} in {selfL}"):
+                    via = selfM if txt(cb[0].value).endswith(selfM) else selfL
+                    if txt(t) in (f"{e} in self", f"{e} not in self", f"not {e} in self"):
+                        t = ast.parse(txt(t).replace(" in self", f" in {via}"), mode="eval").body
             if txt(t) in (f"{e} in {selfM}", f"{e} in {selfL}") and len(body[0].body) == 1 and isinstance(body[0].body[0], ast.Return) and not body[0].orelse:
                 guarded_body = body[1:]
                 o.holds(add, body[0], "present element -> return with no effect")
@@ -230,13 +245,16 @@ def run(ctx):
                         and any(isinstance(x, ast.Return) for x in s.body):
                     o.violated(rem, s, "absent element returns silently: removing an absent element must raise")
 
-    with ctx.obligation("C20.4", "remove: swap-with-last under the guard position != len(list) after the pop", floor=3) as o:
+    def _ob_241(o):
         pops = [s for s in stmts if isinstance(s, (ast.Assign, ast.AnnAssign, ast.Expr)) and match(pat(f"{selfL}.pop()"), s.value) is not None]
+        # `del L[-1]` / `del L[len(L) - 1]` drops the final slot like a bare `L.pop()`
+        pops += [s for s in stmts if isinstance(s, ast.Delete) and len(s.targets) == 1
+                 and (match(pat(f"{selfL}[-1]"), s.targets[0]) is not None or match(pat(f"{selfL}[len({selfL}) - 1]"), s.targets[0]) is not None)]
         if len(pops) != 1 or lookup is None or lookup_kind not in ("pop", "getitem", "del"):
             o.undecided("remove is not {pos = map.pop(e); last = list.pop(); guarded swap}", rem)
             return
         pop_st = pops[0]
-        read_last_form = isinstance(pop_st, ast.Expr)
+        read_last_form = isinstance(pop_st, (ast.Expr, ast.Delete))
         if read_last_form:
             # `last = L[-1]` ... `L.pop()` : the tail is read first and dropped afterwards
             reads = [s for s in stmts if isinstance(s, (ast.Assign, ast.AnnAssign)) and (match(pat(f"{selfL}[-1]"), s.value) is not None
@@ -342,6 +360,8 @@ def run(ctx):
                                    "off by one (stale map entry / IndexError)")
             else:
                 o.undecided(f"guard operand {tm.show(ot)} not comparable", rem, g)
+    with ctx.obligation("C20.4", "remove: swap-with-last under the guard position != len(list) after the pop", floor=3) as o:
+        _ob_241(o)
 
     # ------------------------------------------------------------------ observers
     with ctx.obligation("C20.5", "observers read the list / map", floor=4) as o:
@@ -357,6 +377,9 @@ def run(ctx):
                 o.undecided(f"DrawSet.{name} not found")
                 continue
             body = astx.strip_logging(m.body)
+            if name == "__iter__" and len(body) == 1 and isinstance(body[0], ast.Expr) and isinstance(body[0].value, ast.YieldFrom):
+                # `yield from X` as the whole body is a generator over X: the same members, once each, as `return iter(X)`
+                body = [ast.Return(value=ast.parse(f"iter({txt(body[0].value.value)})", mode="eval").body)]
             if len(body) != 1 or not isinstance(body[0], ast.Return) or body[0].value is None:
                 o.undecided(f"{name} is not a single return", m)
                 continue
